@@ -1020,7 +1020,8 @@ def run(ctx):
                      mk_case=lambda c: dict(c, kind="list"), driver=DRIVER)
         mutator_obligation(ctx)
         if not quick:
-            ctx.cov["exhaustive"] = ("single operations, exhaustively: bounded List traits (%d length/bounds/validator "
+            ctx.cov["exhaustive"] = True
+            ctx.cov["exhaustive_bound"] = ("single operations, exhaustively: bounded List traits (%d length/bounds/validator "
                                      "configurations x the C05 grid with index bound 6: every mutator, int index -6..6, "
                                      "slice over {None,-6..6}^2 x 10 steps, 9 replacement lists); every Set state over "
                                      "{1,2,3} x every mutator x every argument subset of {1,2,3,'1',None} (<= 3 members); "
